@@ -38,3 +38,4 @@ def setup():
 from . import props_v4  # noqa: E402,F401
 from . import props_client  # noqa
 from . import props_server  # noqa
+from . import props_life  # noqa
